@@ -315,7 +315,7 @@ func runC02(seed uint64, n int, tier string, outDir string) []*Stats {
 	if wp := os.Getenv("VERIF_C02_WITNESS"); wp != "" {
 		// development aid: print the Coq terms of the recorded-finding graphs
 		var ws []string
-		for _, g := range []*ggraph{knownAliasGraph(), knownStarCycleGraph()} {
+		for _, g := range []*ggraph{aliasTwoNamesGraph(), knownStarCycleGraph()} {
 			d, _, linkMsgs := scanAndDump(g.render(), "e.mjs", linkCfg{config.FormatESModule, config.PlatformNode})
 			c, _ := dumpToCoq(d, linkMsgs, linkCfg{config.FormatESModule, config.PlatformNode})
 			ws = append(ws, c)
